@@ -79,6 +79,12 @@ def w_cross(ctx, rng, i):
             t = t2
         else:
             history = 0
+    if rng.random() < 0.3:
+        # the transform has a past of operations that do not change it: its inverse was taken, it was copied, composed out of
+        # place, applied to other points
+        with taps.quiet():
+            if tx.bystander_history(rng, t, d):
+                ctx.bump("transforms_with_a_bystander_history")
     if history == 1:
         # the same transform object has already been applied to something of the same size
         other = gen.shape(rng, "PointCloud", d=d, n=s.n_points, scale=0.55 * tx.BOX, centred=True)
